@@ -9,3 +9,11 @@ claim('C16', 'bounded symbolic execution of the real split_lines (SX engine, z3 
       'sequences, every feasible path of the real split_lines (both modes) is executed symbolically and the four '
       'clauses of the property are discharged by z3 (unsat of path condition and negated property).',
       BASE_NOTE, 'DESIGN.md section 4, C16')
+
+claim('C11', 'bounded symbolic execution of the real _read_header + regex-inclusion query against the spec grammar (NFA formula), z3',
+      'The real DiffXReader._read_header runs on "#<id>:" + a fully symbolic option tail (0..7 bytes quick / 0..10 '
+      'thorough, all 256 byte values, LF and CRLF files), on fully symbolic whole lines, and through the public '
+      'iterator; on every feasible path z3 decides acceptance <=> membership in the specification grammar, the '
+      'exception type, and that the reported options equal an independent split (integers converted).',
+      BASE_NOTE + ' The specification grammar is written as an independent regex and compiled to a Boolean formula '
+      'by the NFA builder (validated against re.fullmatch each run).', 'DESIGN.md section 4, C11')
